@@ -555,6 +555,17 @@ def AffineCoordinates.decode (r : Rec) : Option AffineF := do
   let l ← rawLit (← r.get? "labels")
   pure ⟨m, l, u⟩
 
+structure IdentityF where
+  ndim : Lit
+  deriving DecidableEq, Repr
+
+/-- `IdentityCoordinates`: `{'ndim': self.pixel_n_dim}` / `cls(n_dim=rec['ndim'])` -/
+def IdentityCoordinates.encode (x : IdentityF) : Rec := [("ndim", .lit x.ndim)]
+
+def IdentityCoordinates.decode (r : Rec) : Option IdentityF := do
+  let n ← rawLit (← r.get? "ndim")
+  pure ⟨n⟩
+
 /-! ### link helpers (`glue/core/link_helpers.py`) -/
 
 structure LinkCollF where
@@ -699,7 +710,7 @@ inductive Tag where
   | ElementSubsetState | SliceSubsetState | MaskSubsetState | RoiSubsetState | RoiSubsetStateNd | RoiSubsetState3d
   | CategoricalROISubsetState | CategoricalROISubsetState2D | CategoricalMultiRangeSubsetState
   | AndState | OrState | XorState | InvertState | MultiOrState | FloodFillSubsetState
-  | AffineCoordinates | IdentityCoordinates
+  | AffineCoordinates | IdentityCoordinates | Coordinates
   | LinkCollection | MultiLink | LinkSame | LinkSameWithUnits | LinkTwoWay | LinkAligned | PartialResult
   | slice | tuple | list
   deriving DecidableEq, Repr
@@ -727,6 +738,7 @@ def Tag.name : Tag → String
   | .MultiOrState => "glue.core.subset.MultiOrState" | .FloodFillSubsetState => "glue.core.subset.FloodFillSubsetState"
   | .AffineCoordinates => "glue.core.coordinates.AffineCoordinates"
   | .IdentityCoordinates => "glue.core.coordinates.IdentityCoordinates"
+  | .Coordinates => "glue.core.coordinates.Coordinates"
   | .LinkCollection => "glue.core.link_helpers.LinkCollection" | .MultiLink => "glue.core.link_helpers.MultiLink"
   | .LinkSame => "glue.core.link_helpers.LinkSame" | .LinkSameWithUnits => "glue.core.link_helpers.LinkSameWithUnits"
   | .LinkTwoWay => "glue.core.link_helpers.LinkTwoWay" | .LinkAligned => "glue.core.link_helpers.LinkAligned"
@@ -740,7 +752,7 @@ def Tag.all : List Tag :=
    .ElementSubsetState, .SliceSubsetState, .MaskSubsetState, .RoiSubsetState, .RoiSubsetStateNd, .RoiSubsetState3d,
    .CategoricalROISubsetState, .CategoricalROISubsetState2D, .CategoricalMultiRangeSubsetState,
    .AndState, .OrState, .XorState, .InvertState, .MultiOrState, .FloodFillSubsetState,
-   .AffineCoordinates, .IdentityCoordinates,
+   .AffineCoordinates, .IdentityCoordinates, .Coordinates,
    .LinkCollection, .MultiLink, .LinkSame, .LinkSameWithUnits, .LinkTwoWay, .LinkAligned, .PartialResult,
    .slice, .tuple, .list]
 
@@ -753,7 +765,7 @@ inductive Body where
   | element (f : ElementF) | sliceSt (f : SliceF) | mask (f : MaskF) | roiSt (f : RoiStF) | roiNd (f : RoiNdF)
   | roi3d (f : Roi3dF) | catRoiSt (f : CatRoiStF) | catRoi2d (f : CatRoi2dF) | catMultiRange (f : CatMultiRangeF)
   | composite (f : CompositeF) | multiOr (f : MultiOrF) | floodFill (f : FloodFillF)
-  | affine (f : AffineF) | identityCoords
+  | affine (f : AffineF) | identityCoords (f : IdentityF) | baseCoords
   | linkColl (f : LinkCollF) | multiLink (f : MultiLinkF) | linkSame (f : CidPairF) | linkUnits (f : CidPairF)
   | linkTwoWay (f : TwoWayF) | linkAligned (f : DataPairF) | partialResult (f : PartialF)
   | pySlice (f : SliceObjF) | pyTuple (f : ContentsF) | pyList (f : ContentsF)
@@ -773,7 +785,7 @@ def Body.tag : Body → Tag
   | .roiNd _ => .RoiSubsetStateNd | .roi3d _ => .RoiSubsetState3d | .catRoiSt _ => .CategoricalROISubsetState
   | .catRoi2d _ => .CategoricalROISubsetState2D | .catMultiRange _ => .CategoricalMultiRangeSubsetState
   | .composite f => f.kind.tag | .multiOr _ => .MultiOrState | .floodFill _ => .FloodFillSubsetState
-  | .affine _ => .AffineCoordinates | .identityCoords => .IdentityCoordinates
+  | .affine _ => .AffineCoordinates | .identityCoords _ => .IdentityCoordinates | .baseCoords => .Coordinates
   | .linkColl _ => .LinkCollection | .multiLink _ => .MultiLink | .linkSame _ => .LinkSame
   | .linkUnits _ => .LinkSameWithUnits | .linkTwoWay _ => .LinkTwoWay | .linkAligned _ => .LinkAligned
   | .partialResult _ => .PartialResult | .pySlice _ => .slice | .pyTuple _ => .tuple | .pyList _ => .list
@@ -794,7 +806,7 @@ def Body.saverRec : Body → Rec
   | .catRoi2d f => CategoricalROISubsetState2D.encode f | .catMultiRange f => CategoricalMultiRangeSubsetState.encode f
   | .composite f => CompositeSubsetState.encode f | .multiOr f => MultiOrState.encode f
   | .floodFill f => FloodFillSubsetState.encode f
-  | .affine f => AffineCoordinates.encode f | .identityCoords => []
+  | .affine f => AffineCoordinates.encode f | .identityCoords f => IdentityCoordinates.encode f | .baseCoords => []
   | .linkColl f => LinkCollection.encode f | .multiLink f => MultiLink.encode f | .linkSame f => LinkSame.encode f
   | .linkUnits f => LinkSame.encode f | .linkTwoWay f => LinkTwoWay.encode f | .linkAligned f => LinkAligned.encode f
   | .partialResult f => PartialResult.encode f
@@ -844,7 +856,8 @@ def Body.decode (t : TRec) : Option Body :=
   | .MultiOrState => (MultiOrState.decode t.dict).map .multiOr
   | .FloodFillSubsetState => (FloodFillSubsetState.decode t.dict).map .floodFill
   | .AffineCoordinates => (AffineCoordinates.decode t.dict).map .affine
-  | .IdentityCoordinates => some .identityCoords
+  | .IdentityCoordinates => (IdentityCoordinates.decode t.dict).map .identityCoords
+  | .Coordinates => some .baseCoords
   | .LinkCollection => (LinkCollection.decode t.dict).map .linkColl
   | .MultiLink => (MultiLink.decode t.dict).map .multiLink
   | .LinkSame => (LinkSame.decode t.dict).map .linkSame
